@@ -9,7 +9,7 @@ CLAIMS = {
         'text': 'Decides the structural clauses of C05 for all inputs: ids are handed out once on every path of '
                 'from_opchains; no chain coefficient is dropped between the chain list and an edge (would have '
                 'reported F1); MPO.from_opgraph uses one layer ordering for labels, node map, columns and rows; '
-                'OpChain.padded length algebra; a pending coefficient is absorbed exactly once, through the edges entering the end node; the bond index recorded in nid_map is the position in the layer list and the map is recorded by enumerating the new layer; the half-chain list and its coefficient list are built in lockstep; coefficient values steer the structure only through the two documented tests.  Does not decide operator equality of the compiled graph.',
+                'OpChain.padded length algebra; a pending coefficient is absorbed exactly once, through the edges entering the end node; the bond index recorded in nid_map is the position in the layer list and the map is recorded by enumerating the new layer; the half-chain list and its coefficient list are built in lockstep; coefficient values steer the structure only through the two documented tests; stores into preallocated typed arrays keep the element type; the node / edge tables connect both ends of every edge.  Does not decide operator equality of the compiled graph.',
         'design_ref': 'DESIGN.md 4.2, 5 (C05)',
         'note': TRUST + '; undecided: correctness of repartition + vertex cover as an algorithm',
     },
@@ -30,7 +30,7 @@ CLAIMS = {
                 'molecular constructions is fresh when handed to a constructor (reported F2, invisible below L=5), that '
                 'the creation / export / registration / lookup tables of the 2 x 12 node families agree, that every '
                 'non-raising path of the term functions adds exactly one edge carrying the coefficient, and that both '
-                'coefficient tensors reach both build paths; every key of a node family lies in the range created for it, for all L (Fourier-Motzkin over the loop nests, L//2 as a symbol); skip guards agree between creation and wiring; every explicit edge conserves charge and carries the Jordan-Wigner string its position requires; the two halves of the gauge transform are mirror images with conjugation and visit every spectator orbital; a len()-based id allocator is accepted only while no constructor of the family leaves a gap in the id range.  Operator equality of the two paths is not decided.',
+                'coefficient tensors reach both build paths; every key of a node family lies in the range created for it, for all L (Fourier-Motzkin over the loop nests, L//2 as a symbol); skip guards agree between creation and wiring; every explicit edge conserves charge and carries the Jordan-Wigner string its position requires; the two halves of the gauge transform are mirror images with conjugation and visit every spectator orbital; a len()-based id allocator is accepted only while no constructor of the family leaves a gap in the id range; no store into a preallocated typed array narrows the element type of the coefficient tensors (symbolic dtype lattice).  Operator equality of the two paths is not decided.',
         'design_ref': 'DESIGN.md 4.2, 4.6, 5 (C07)',
         'note': TRUST + '; the get() rule trusts the naming convention a_dag~C, a_ann~A',
     },
@@ -45,13 +45,14 @@ CLAIMS = {
         'note': TRUST + '; callee resolution by the effects engine',
     },
     'C17': {
-        'technique': 'static analysis: id typestate, role-based AST pattern rules with definition expansion, list-length algebra, definite assignment relative to loop entry, site-range typing of Kronecker products',
+        'technique': 'static analysis: id typestate, role-based AST pattern rules with definition expansion, list-length algebra, definite assignment relative to loop entry, site-range typing of Kronecker products, sibling cross-check of the graph tables, path-partitioned exactly-once counting',
         'text': 'Decides the structural clauses of tree/automaton unfolding: ids unique on every path (incl. the guarded '
                 'reuse of the terminal id), site-dependent automaton edges are always read through the callable '
                 'dispatch at the site being unrolled, identity padding satisfies the callee length contract for all '
                 'counts, recursion distance bookkeeping, guards and co-indexing of the unrolled edges, agreement of frontier and growth '
-                'end in both reachability sweeps, no value carried from one tree / child to the next, and the site order of every '
-                'Kronecker product in the dense-meaning routines (chain, tree, graph in both directions).  The denotation of the '
+                'end in both reachability sweeps, no value carried from one tree / child to the next, the site order of every '
+                'Kronecker product in the dense-meaning routines (chain, tree, graph in both directions), the adjacency tables of '
+                'OpGraph and AutOp (both ends of an edge connected independently), and the edge constructor summing repeated operator ids.  The denotation of the '
                 'unrolled graph as a sum over paths is not decided.',
         'design_ref': 'DESIGN.md 4.2, 4.6, 5 (C17)',
         'note': TRUST,
@@ -91,7 +92,7 @@ CLAIMS = {
     'C09': {
         'technique': 'static analysis: symbolic extraction of the sub-step schedule and comparison with its reversal; canonical-form intervals',
         'text': 'Decides the structural reason for reversibility: for every L the schedule of local steps of one time step of '
-                'both integrators (kind, position affine in the loop variable, rational step fraction) is a palindrome, and '
+                'both integrators (kind, position affine in the loop variable, rational step fraction) is a palindrome (compared in a normal form that does not depend on how the source cuts the sequence into loops), every position receives step fractions summing to one time step also for L = 1 and L = 2, and '
                 'the split direction keeps every step at the orthogonality centre; the reported norm is the factor of the initial '
                 'normalisation of the input; Krylov support rules as C08.  Exactness on a complete manifold and the size of the '
                 'reversibility defect are numerical and not decided.',
@@ -165,7 +166,7 @@ CLAIMS = {
         'text': 'Decides the index-wiring part of the homomorphism laws: which legs are contracted and how bond legs are '
                 'grouped in apply / compose / merge / split, block layout and alpha placement of sums in both the L == 1 and '
                 'L > 1 branches, site-major ordering of every dense conversion, total singular-value exponent 1 in all '
-                'three split modes; boundary labels and storage dtype of sums, independence of the site data of constructed '
+                'three split modes; boundary labels and storage dtype of sums and of every preallocated typed array (symbolic element-type lattice), bond labels of the product resolved through locals and covering bonds 0..L, independence of the site data of constructed '
                 'objects, and (multi)linearity: conversions and arithmetic never inspect tensor entries (value taint).  Dense '
                 'equality up to rounding, the index arithmetic of the sparse as_matrix path and from_vector numerics are not decided.',
         'design_ref': 'DESIGN.md 4.4, 5 (C03)',
